@@ -24,26 +24,30 @@ TEMP_TICK = 10**6      # temperatures of the model are millionths of a degree
 
 ALL_UNITS = {"one", "percent", "rad", "aq", "m", "km", "cm", "mm", "kilo_m", "milli_m", "inch", "s", "minute", "hour", "ms",
              "kg", "gram", "tonne", "newton", "kN", "joule", "Nm", "Wh", "watt", "pascal", "kPa", "hertz", "rad_s",
-             "aq_s", "liter", "m3", "mps", "kmh", "kelvin"}
+             "aq_s", "liter", "m3", "mps", "kmh", "kelvin", "mK"}
 INEXACT = {"milli_m"}       # prefixes.milli is the float 10**-3
 
 CFG = {
     "quick": dict(UnitNames=ALL_UNITS, ValueNames={"v1", "v2", "vm3", "vh", "v75"}, MaxChain=2,
                   ExprOps={"mul", "div", "add", "sub", "sq", "scale"},
                   ExprUnits={"m", "km", "s", "hour", "kg", "newton", "one", "percent"}, ExprVals={"v2", "vh"},
+                  ImagFactors={2}, ComplexVals={"v2", "vh"},
                   Temps={300000000 + t for t in (-273150000, -40000000, 0, 25000000, 100000000, 273150000,
                                                  15000, 4222100, 21456000, 300123456, -268927899)}),
     "thorough": dict(UnitNames=ALL_UNITS, ValueNames={"v1", "v2", "vm3", "vh", "v75", "v1000", "vmil", "v0"}, MaxChain=3,
                      ExprOps={"mul", "div", "add", "sub", "sq", "scale"},
                      ExprUnits={"m", "km", "cm", "inch", "s", "hour", "ms", "kg", "gram", "newton", "kN", "joule", "Wh",
                                 "one", "percent", "rad", "aq", "kmh", "liter", "kelvin"},
-                     ExprVals={"v2", "vh", "vm3", "v75"},
+                     ExprVals={"v2", "vh", "vm3", "v75"}, ImagFactors={1, 3}, ComplexVals={"v1", "vm3", "vh", "v75"},
                      Temps={300000000 + t for t in (-273150000, -273149999, -40000000, -1, 0, 1, 25000000, 36770000,
                                                     100000000, 273150000, 299990000, 15000, 4222100, 21456000, 300123456,
                                                     -268927899, 1234567, 77355001, 1357246801)}),
 }
 INVARIANTS = ["TypeOK", "ValuePreserved", "Composition", "Inverse", "OwnSIUnit", "RefusalExact", "Linear",
-              "EvaluationPreservesValue", "TempInverse"]
+              "EvaluationPreservesValue", "CelsiusHelper", "TempInverse"]
+# units that are plain SymPy expressions (no wrapped symplyphysics Quantity inside): an expression may mix them
+# with wrapped quantities
+PLAIN_UNITS = ALL_UNITS - {"one", "aq", "aq_s", "mK", "kilo_m", "milli_m", "kN"}
 VALS = {"v1": Fraction(1), "v2": Fraction(2), "vm3": Fraction(-3), "vh": Fraction(1, 2), "v75": Fraction(7, 5),
         "v1000": Fraction(1000), "vmil": Fraction(1, 1000), "v0": Fraction(0)}
 
@@ -75,7 +79,7 @@ def _real():
                 "pascal": u.pascal, "kPa": u.kPa, "hertz": u.hertz, "rad_s": u.radian / u.second,
                 "aq_s": Quantity(1, dimension=angle_type) / u.second,
                 "liter": u.liter, "m3": u.meter**3, "mps": u.meter / u.second, "kmh": u.kilometer / u.hour,
-                "kelvin": u.kelvin,
+                "kelvin": u.kelvin, "mK": Quantity(sp.Rational(1, 1000) * u.kelvin),
             })
     return _R
 
@@ -91,23 +95,35 @@ def frac(x):
     return None
 
 
-def same(got, want: Fraction, exact: bool) -> bool:
+def same(got, want: Fraction, exact: bool, scale: Fraction = Fraction(0)) -> bool:
+    """scale: magnitude of the operands of a sum (float round-off of a cancelling sum is relative to them)."""
     f = frac(got)
     if f is None:
         return False
     sp = _real()["sp"]
     if exact:
         return sp.sympify(got).is_Rational and f == want
-    return abs(f - want) <= abs(want) * Fraction(1, 10**12)
+    return abs(f - want) <= max(abs(want), scale) * Fraction(1, 10**12)
 
 
 def rat(fr: Fraction):
     return _real()["sp"].Rational(fr.numerator, fr.denominator)
 
 
-def quantity(val: Fraction, uname: str, as_float: bool):
+def quantity(val: Fraction, uname: str, as_float: bool, k: int = 0):
+    """The quantity val * (1 + k i) units."""
     r = _real()
-    return r["Quantity"]((float(val) if as_float else rat(val)) * r["unit"][uname])
+    return r["Quantity"]((float(val) if as_float else rat(val)) * (1 + k * r["sp"].I) * r["unit"][uname])
+
+
+def same_complex(got, want: Fraction, k: int, exact: bool) -> bool:
+    """got == want * (1 + k i), part by part."""
+    sp = _real()["sp"]
+    try:
+        re_, im_ = sp.sympify(got).as_real_imag()
+    except Exception:  # pylint: disable=broad-except
+        return False
+    return same(re_, want, exact) and same(im_, want * k, exact)
 
 
 def replay_chain(case, as_float):
@@ -115,8 +131,9 @@ def replay_chain(case, as_float):
     out = []
     val = VALS[case["val"]]
     chain = case["chain"]
+    k = case.get("im", 0)
     exact = not as_float and not (set(chain) & INEXACT)
-    q = quantity(val, chain[0], as_float)
+    q = quantity(val, chain[0], as_float, k)
     n = None
     refused = None
     with time_limit(20):
@@ -136,18 +153,51 @@ def replay_chain(case, as_float):
         else:
             if refused is not None:
                 out.append(f"model converts, code refused step {refused[0]} with {refused[1]}")
-            elif not same(n, want, exact):
-                out.append(f"convert_to gives {n}, model {want}")
+            elif not same_complex(n, want, k, exact):
+                out.append(f"convert_to gives {n}, model {want}" + (f" * (1 + {k}i)" if k else ""))
         if len(chain) == 2:          # once per start quantity and first target: the SI value
-            q0 = quantity(val, chain[0], as_float)
+            q0 = quantity(val, chain[0], as_float, k)
             si = Fraction(case["si"][0], case["si"][1])
             got = r["convert_to_si"](q0)
-            if not same(got, si, exact):
-                out.append(f"convert_to_si gives {got}, model {si}")
+            if not same_complex(got, si, k, exact):
+                out.append(f"convert_to_si gives {got}, model {si}" + (f" * (1 + {k}i)" if k else ""))
             if all(x[0] == 0 for x in case["d"][:7]):
-                got = r["convert_to_float"](q0)
-                if not isinstance(got, float) or abs(Fraction(got) - si) > abs(si) * Fraction(1, 10**12):
-                    out.append(f"convert_to_float gives {got!r}, model {si}")
+                # a float result must be the whole number n (n times one equals the quantity): a value with an
+                # imaginary part has no float, the conversion can only be refused
+                try:
+                    got = r["convert_to_float"](q0)
+                except Exception as e:  # pylint: disable=broad-except
+                    got = e
+                if case.get("flt", True):
+                    if not isinstance(got, float) or abs(Fraction(got) - si) > abs(si) * Fraction(1, 10**12):
+                        out.append(f"convert_to_float gives {got!r}, model {si}")
+                elif not isinstance(got, Exception):
+                    out.append(f"convert_to_float gives {got!r} for the complex value {si} * (1 + {k}i): "
+                               "no float times one equals the quantity")
+    return out
+
+
+def replay_celsius(case, as_float):
+    """The Celsius helper for quantities: defined exactly for temperatures."""
+    r = _real()
+    c = r["celsius"]
+    out = []
+    q = quantity(VALS[case["a"]["val"]], case["a"]["u"], as_float)
+    try:
+        with time_limit(20):
+            got = c.from_kelvin_quantity(q).value
+    except HardTimeout:
+        raise
+    except Exception as e:  # pylint: disable=broad-except
+        got = e
+    if case["ok"]:
+        want = Fraction(case["c"][0], case["c"][1])
+        if isinstance(got, Exception):
+            out.append(f"from_kelvin_quantity refused a temperature ({type(got).__name__}), model {want} C")
+        elif abs(Fraction(float(got)) - want) > Fraction(1, 10**9):
+            out.append(f"from_kelvin_quantity gives {got} C, model {want} C")
+    elif not isinstance(got, Exception):
+        out.append(f"from_kelvin_quantity accepted a quantity that is not a temperature and returned {got} C")
     return out
 
 
@@ -165,25 +215,35 @@ def build_expr(op, qa, qb):
     return qb * qa
 
 
-def replay_expr(case, as_float):
+def replay_expr(case, as_float, plain=False):
+    """plain: the second operand is written with the plain SymPy unit (2*units.kilometer) instead of a wrapped
+    symplyphysics Quantity - evaluation must replace both kinds of quantity by their SI numbers."""
     r = _real()
     out = []
     exact = not as_float and case["a"]["u"] not in INEXACT and case["b"]["u"] not in INEXACT
     qa = quantity(VALS[case["a"]["val"]], case["a"]["u"], as_float)
-    qb = quantity(VALS[case["b"]["val"]], case["b"]["u"], as_float)
+    if plain:
+        vb = VALS[case["b"]["val"]]
+        qb = (float(vb) if as_float else rat(vb)) * r["unit"][case["b"]["u"]]
+    else:
+        qb = quantity(VALS[case["b"]["val"]], case["b"]["u"], as_float)
     want = Fraction(case["si"][0], case["si"][1])
     with time_limit(20):
         e = build_expr(case["op"], qa, qb)
+        scale = Fraction(0)
+        if case["op"] in ("add", "sub"):      # both operands have the dimension of the result: |want| <= scale
+            scale = abs(frac(r["convert_to_si"](qa)) or 0) + abs(want) if case["op"] == "sub" else abs(want)
+            scale = max(scale, abs(frac(r["convert_to_si"](qa)) or 0))
         got = r["evaluate_expression"](e)
-        if not same(got, want, exact):
+        if not same(got, want, exact, scale):
             out.append(f"evaluate_expression gives {got}, model {want}")
         got = r["evaluate_expression"](e, evaluate=True)
-        if not same(got, want, False):
+        if not same(got, want, False, scale):
             out.append(f"evaluate_expression(evaluate=True) gives {got}, model {want}")
         if want != 0:      # a zero-valued expression has no dimension inside Quantity()
             qe = r["Quantity"](e)
             got = r["convert_to_si"](qe)
-            if not same(got, want, exact):
+            if not same(got, want, exact, scale):
                 out.append(f"convert_to_si(Quantity(expr)) gives {got}, model {want}")
             d = project_dim(qe.dimension)
             if d != case["d"]:
@@ -250,6 +310,13 @@ def _replay_one(case, res):
         elif case["k"] == "expr":
             for as_float in (False, True):
                 res += [(None, ("float: " if as_float else "exact: ") + w) for w in replay_expr(case, as_float)]
+            if case["b"]["u"] in PLAIN_UNITS and case["op"] != "sq":
+                for as_float in (False, True):
+                    res += [(None, ("float, plain unit: " if as_float else "exact, plain unit: ") + w)
+                            for w in replay_expr(case, as_float, plain=True)]
+        elif case["k"] == "celsius":
+            for as_float in (False, True):
+                res += [(None, ("float: " if as_float else "exact: ") + w) for w in replay_celsius(case, as_float)]
         else:
             res += replay_temp(case)
     except HardTimeout:
@@ -259,7 +326,9 @@ def _replay_one(case, res):
 
 def case_key(case):
     if case["k"] == "chain":
-        return f"chain {case['val']} " + " -> ".join(case["chain"])
+        return f"chain {case['val']}" + (f"*(1+{case['im']}i) " if case.get("im") else " ") + " -> ".join(case["chain"])
+    if case["k"] == "celsius":
+        return f"celsius {case['a']['val']} {case['a']['u']}"
     if case["k"] == "expr":
         return f"expr {case['op']}({case['a']['val']} {case['a']['u']}, {case['b']['val']} {case['b']['u']})"
     return f"temp {case['t0']} {case['s0']} x{case['steps']}"
@@ -402,7 +471,7 @@ def trace_validation(run: Run, sc, pool, tier):
                                  "ud": x["ud"], "out": x["out"], "res": pair(x["res"])} for x in recs]))
     cfg = write_cfg(sc / "converttrace.cfg", init="TInit", next_="TNext",
                     constants=dict(UnitNames=set(), ValueNames=set(), MaxChain=0, ExprOps=set(), ExprUnits=set(),
-                                   ExprVals=set(), Temps=set()),
+                                   ExprVals=set(), Temps=set(), ImagFactors=set(), ComplexVals=set()),
                     invariants=["Validate", "Checked"])
     res = run_tlc("ConvertTrace", cfg, sc, workers=1, env={"TRACE_FILE": str(path)}, allow_violation=False)
     run.add_tlc(res, f"trace validation: {len(recs)} conversions recorded from the real convert_to / convert_to_si over "
